@@ -65,7 +65,14 @@ func c03Gen(seed uint64, run int, tier string) *Case {
 	}
 	maxData := effMsize(c) - IOHDRSZ
 	nconn := int(c.Cfg["nconn"])
+	if nconn > 1 && effMsize(c) > 256 && r.Pct(50) {
+		// the connections of one server need not agree on msize: every connection but the first negotiates 256
+		c.Cfg["cmsize_other"] = 256
+	}
 	for ci := 0; ci < nconn; ci++ {
+		if ci == 1 && c.Cfg["cmsize_other"] != 0 {
+			maxData = 256 - IOHDRSZ
+		}
 		n := r.Range(1, maxReq)
 		nslots := r.Pick(1, 2, 4, 8, 16, 64)
 		if nslots > n {
